@@ -69,8 +69,11 @@ def main(argv):
                 broken.append({"obligation": "harness", "error": traceback.format_exc()[-1500:]})
         for d in ctx.disagreements:
             broken.append({"obligation": "correspondence:" + d["runner"], "error": d["what"], "case": d["data"]})
-        if broken and not ctx.violations and ok:
-            # escalate: search the implementation for a concrete failing input
+        if broken and not ctx.violations:
+            # escalate: search the implementation for a concrete failing input (also when the model
+            # could not be built: the direct oracles do not need it)
+            if not ok:
+                ctx.use_model = False
             try:
                 mod.search(ctx, broken)
             except Exception:
